@@ -321,6 +321,30 @@ func c18Soup(r *rand.Rand, kws []string) string {
 	return b.String()
 }
 
+// c18ExtCommand: an external command ($...) made of plain words, quoted parts with escapes, ${...}
+// expressions with escapes, stray $ { } and line breaks, with or without the terminating semicolon
+func c18ExtCommand(r *rand.Rand) string {
+	pieces := []string{"echo", " ", "  ", "-la", "a=b", "'x y'", "'it\\'s'", "\"d q\"", "\"a\\\"b\"", "`bq`", "`b\\`q`", "'a;b'", "'${x}'", "${@a}", "${@a || 'x'}", "${ 1 + 1 }",
+		"${'}'}", "${a\\}b}", "${a\\{b}", "${a\\\\}", "${}", "$", "$x", "{", "}", "\\", "\\;", "\n", "\r\n", "\r", "|", "&&", "2>&1", "\u3042", "@a", "--x", "/*c*/"}
+	var b strings.Builder
+	b.WriteString("$")
+	n := 2 + r.Intn(6)
+	for i := 0; i < n; i++ {
+		b.WriteString(pieces[r.Intn(len(pieces))])
+		if r.Intn(2) == 0 {
+			b.WriteString(" ")
+		}
+	}
+	if r.Intn(2) == 0 {
+		b.WriteString("; SELECT 1")
+	}
+	s := b.String()
+	if rs := []rune(s); len(rs) > 48 {
+		s = string(rs[:48])
+	}
+	return s
+}
+
 func c18Mutate(r *rand.Rand, q string) string {
 	rs := []rune(q)
 	n := 1 + r.Intn(3)
@@ -463,17 +487,19 @@ func c18UnicodeSelfCheck(kws []string) []string {
 // ---- the run ---------------------------------------------------------------------------------------
 
 type c18Input struct {
-	Src    string
-	Origin string // random | soup | mutated | corpus-<kind> | test-suite | quoted
-	Eval   bool   // corpus expression statement whose evaluation is compared across the round trip
-	Prep   int    // -1 any, 0/1 required
-	Ansi   int
+	Src     string
+	Origin  string // random | soup | mutated | corpus-<kind> | test-suite | quoted
+	Eval    bool   // corpus expression statement whose evaluation is compared across the round trip
+	Ordered bool   // ... and its ORDER BY is total: the records are compared as a sequence
+	Table   bool   // corpus query over the fixed tables wt / wt2: query.Select results are compared across the round trip
+	Prep    int    // -1 any, 0/1 required
+	Ansi    int
 }
 
 func runC18(seed int64, tier string, out string) {
 	r := rand.New(rand.NewSource(seed))
 	meta := newMeta("C18", seed)
-	meta.Rule = "inputs: random code-point strings (ASCII, white space of every kind, quotation marks, backslashes, non-ASCII letters/digits, folding specials, private-use code points at the goyacc token numbers, invalid UTF-8), token soups (keywords in every case incl. Unicode folding, operators, quotation marks, comment openers, numbers around the int64/float64 limits, variables, placeholders, external commands glued at random), mutated valid queries, texts that END in every scanner state (prefixes of valid texts; texts followed by a lone CR, an opening quotation mark, a comment opener, a sigil, a half number ...), a grammar-based corpus (expressions, SELECT with every clause, DML, DDL, cursor/variable/flow statements) and the inputs of the pinned parser tests; every input is scanned by parser.Scanner (modes: prepared on/off x ANSI_QUOTES on/off) and the token stream is compared with Model.Lex.tokens; option.Escape*/Unescape*/Quote* on random strings are compared with Model.Escape; parser.Parse runs on every input in all four modes (time bound, no panic, error position inside the input, print/re-parse/print identity, evaluation identity for corpus expressions). distinct = distinct (mode, token-kind sequence, error classes) signatures of scanner cases with at least two tokens + distinct escape inputs + distinct printed statements re-parsed."
+	meta.Rule = "inputs: random code-point strings (ASCII, white space of every kind, quotation marks, backslashes, non-ASCII letters/digits, folding specials, private-use code points at the goyacc token numbers, invalid UTF-8), token soups (keywords in every case incl. Unicode folding, operators, quotation marks, comment openers, numbers around the int64/float64 limits, variables, placeholders, external commands glued at random), mutated valid queries, texts that END in every scanner state (prefixes of valid texts; texts followed by a lone CR, an opening quotation mark, a comment opener, a sigil, a half number ...), a grammar-based corpus (expressions, SELECT with every clause, DML, DDL, cursor/variable/flow statements) and the inputs of the pinned parser tests; every input is scanned by parser.Scanner (modes: prepared on/off x ANSI_QUOTES on/off) and the token stream is compared with Model.Lex.tokens; option.Escape*/Unescape*/Quote* on random strings are compared with Model.Escape; a termination pre-pass scans and parses every input in child processes under an address-space and time limit (texts ending inside every state of an external command included); parser.Parse runs on every input in all four modes (time bound, no panic, error position inside the input, print/re-parse/print identity, evaluation identity for corpus expressions; for generated and boundary-literal SELECTs over two fixed tables query.Select on the parsed tree and on the tree parsed from its printed text must give the same header and records; for other valid SELECTs the two trees must be structurally the same). distinct = distinct (mode, token-kind sequence, error classes) signatures of scanner cases with at least two tokens + distinct escape inputs + distinct printed statements re-parsed."
 	w := &shardWriter{dir: out, prop: "C18", max: 1200, meta: meta, header: c18Header(),
 		footer: func(ls []string) string {
 			names := map[string]string{"scases": "[]", "ecases": "[]", "ccases": "[]", "fcases": "[]"}
@@ -570,6 +596,27 @@ func runC18(seed int64, tier string, out string) {
 		inputs = append(inputs, c18Input{Src: e, Origin: "ending", Prep: -1, Ansi: -1}, c18Input{Src: "SELECT 1" + e, Origin: "ending", Prep: -1, Ansi: -1})
 	}
 
+	// ... and inside an external command, in each state of its three loops (plain, quoted, ${...}): fixed
+	// texts and every prefix of a few generated commands
+	extEnds := []string{"$", "$echo ", "$echo ${", "$echo ${@a", "$echo ${@a \\", "$e 'x", "$e \"x", "$e `x", "$e \\", "$e 'x\\", "$e \"x\\", "$e ${'x", "$e ${\\",
+		"$e ${a\\}", "$e ${a\\{", "$e ${a}", "$e ${a} ", "$e ${a} $", "$e ${a} ${", "$e ${{", "$e $", "$e $x", "$e '${", "$e '${'", "$e ${\r", "$e ${\r\n", "$e 'x\r", "$e\n${", "$e ;${", "$e ${;", "$e ${a;b"}
+	for _, e := range extEnds {
+		inputs = append(inputs, c18Input{Src: e, Origin: "ending", Prep: -1, Ansi: -1}, c18Input{Src: "SELECT 1; " + e, Origin: "ending", Prep: -1, Ansi: -1})
+	}
+	nExt := 4
+	if tier == "thorough" {
+		nExt = 40
+	}
+	for i := 0; i < nExt; i++ {
+		v := []rune(c18ExtCommand(r))
+		for k := 1; k <= len(v); k++ {
+			inputs = append(inputs, c18Input{Src: string(v[:k]), Origin: "ending", Prep: -1, Ansi: -1})
+		}
+	}
+
+	// ---- termination pre-pass in child processes -----------------------------------------------------------
+	nonterminating := c18Guard(inputs, meta)
+
 	// ---- (i) scanner correspondence + (iii) parser differential ------------------------------------------
 	id := 0
 	shardBytes := 0
@@ -577,6 +624,9 @@ func runC18(seed int64, tier string, out string) {
 	diff := newC18Diff(meta)
 	for idx, in := range inputs {
 		meta.Distribution["input:"+in.Origin]++
+		if nonterminating[idx] {
+			continue // reported by the pre-pass; running it here would take the harness down
+		}
 		// modes: the corpus carries its own; every other input is scanned in two random modes or, every
 		// third input, in all four
 		var modes [][2]bool
